@@ -235,7 +235,7 @@ def coloured_cases(draw):
     p, t = draw(gen.pattern_target(4, 8))
     pc = draw(gen.colours(len(p)))
     # bias target colours towards the pattern's colours so that matches exist
-    tc = draw(st.lists(st.sampled_from(pc + [0, 1, 2]) if pc else st.integers(0, 2), min_size=len(t), max_size=len(t)))
+    tc = draw(st.lists(st.sampled_from(pc + gen.COLOUR_VALUES), min_size=len(t), max_size=len(t)))
     return [p, t, pc, tc]
 
 
